@@ -88,16 +88,19 @@ def _table(named, inv0, tf0, tr0, tc0, inv1, tf1, tr1, tc1, nobj, k0, f0, r0, c0
 
 def eflr_table(named: bool, inv0: bool, tf0: int, tr0: int, inv1: bool, tf1: int, tr1: int, nobj: int, k0: int, f0: int, r0: int, k1: int, f1: int, r1: int) -> bool:
     """
-    pre: 0 <= tf0 <= 15 and 0 <= tf1 <= 15 and 0 <= tr0 <= 3 and 0 <= tr1 <= 3
+    pre: 0 <= tf0 <= 15 and tf1 in (0, 5, 10, 15) and tr0 in (1, 3) and tr1 == 2
     pre: 0 <= nobj <= 2
-    pre: 0 <= k0 <= 2 and 0 <= k1 <= 2 and 0 <= f0 <= 15 and 0 <= f1 <= 15 and 0 <= r0 <= 3 and 0 <= r1 <= 3
+    pre: 0 <= k0 <= 2 and 0 <= k1 <= 2 and 0 <= f0 <= 15 and f1 in (0, 1, 5, 15) and r0 in (0, 3) and r1 == 1
+    pre: (k0 == 2 or (f0 == 0 and r0 == 0)) and (k1 == 2 or f1 == 0)
     pre: PART < 0 or (8 if inv0 else 0) + (4 if inv1 else 0) + k0 * 12 + k1 * 36 + (2 if named else 0) + (1 if nobj == 2 else 0) == PART
     post: _
     """
     named, inv0, inv1 = mark.pickb(named), mark.pickb(inv0), mark.pickb(inv1)
-    tf0, tf1, tr0, tr1 = mark.pick(tf0, 0, 15), mark.pick(tf1, 0, 15), mark.pick(tr0, 0, 3), mark.pick(tr1, 0, 3)
+    tf0, tf1, tr0, tr1 = mark.pick(tf0, 0, 15), mark.pick_from(tf1, (0, 5, 10, 15)), mark.pick_from(tr0, (1, 3)), 2
     nobj, k0, k1 = mark.pick(nobj, 0, 2), mark.pick(k0, 0, 2), mark.pick(k1, 0, 2)
-    f0, f1, r0, r1 = mark.pick(f0, 0, 15), mark.pick(f1, 0, 15), mark.pick(r0, 0, 3), mark.pick(r1, 0, 3)
+    # the characteristics of a component matter only when the component is an ATTRIB (k == 2)
+    f0, r0 = (mark.pick(f0, 0, 15), mark.pick_from(r0, (0, 3))) if k0 == 2 else (0, 0)
+    f1, r1 = (mark.pick_from(f1, (0, 1, 5, 15)) if k1 == 2 else 0), 1
     with mark.untraced():
         return _table(named, inv0, tf0, tr0, 2, inv1, tf1, tr1, 2, nobj, k0, f0, r0, 2, k1, f1, r1, 1, 5)
 
